@@ -447,7 +447,8 @@ class DoubleFree:
                     lhs, rn = norm(e.kid(0)), norm(e.kid(1))
                     while rn[0] == "=" and len(rn) == 3:
                         rn = rn[1]
-                    if lhs[0] == "v" and rn[0] in ("v", ".") and _pure(rn) and trackable(rn) and lhs != rn and (f.unit.types.get(e.kid(0).ty) or {}).get("kind") == "ptr":
+                    if lhs[0] in ("v", ".") and rn[0] in ("v", ".") and (lhs[0] == "v" or rn[0] == "v") and _pure(rn) and _pure(lhs) and trackable(rn) and trackable(lhs) \
+                            and lhs != rn and (f.unit.types.get(e.kid(0).ty) or {}).get("kind") == "ptr":
                         w = (w[0] | frozenset([("alias", lhs, rn, 0)]), w[1], w[2])
                 return w
             if e.cls == "CallExpr" and e.callee:
@@ -462,6 +463,17 @@ class DoubleFree:
                             continue
                         for q in aliases(ent, n):
                             ent = ent | frozenset([("freed", q, e.pos)])
+                        # a destructor of the library releases members of its argument as well
+                        g = prog.resolve(f, c) if c != "free" else None
+                        if g is not None:
+                            from . import common
+                            di = common.dtor_info(g, rel)
+                            for m in (di[1] if di else []):
+                                if m == "self":
+                                    continue
+                                mp = (".", ("*", n), m)
+                                for q in aliases(ent, mp):
+                                    ent = ent | frozenset([("freed", q, e.pos)])
                     return (ent, facts, af)
                 g = prog.resolve(f, c)
                 if g is not None:
@@ -622,7 +634,12 @@ class NullChk:
                 lhs = norm(e.kid(0))
                 rs = e.kid(1).strip() if e.kid(1) is not None else None
                 st = frozenset(x for x in st if x[0] != lhs)
-                if rs is not None and rs.cls == "CallExpr" and rs.callee in acq and trackable(lhs):
+                fallible = rs is not None and rs.cls == "CallExpr" and rs.callee in acq
+                if not fallible and rs is not None and rs.cls == "CallExpr" and rs.callee:
+                    # any function of the library that answers a pointer and has a NULL failure return
+                    g = self.prog.resolve(f, rs.callee)
+                    fallible = g is not None and (g.unit.types.get(g.ret) or {}).get("kind") == "ptr" and may_fail(self.prog, g)
+                if fallible and trackable(lhs):
                     sites.append(rs)
                     return st | frozenset([(lhs, rs.pos)])
                 return st
@@ -632,8 +649,20 @@ class NullChk:
             if kind not in (True, False):
                 return st
             for op, L, R, _, _ in cond_atoms(cond, kind):
-                if R == ("c", 0) and op in ("==", "!="):
-                    st = frozenset(x for x in st if x[0] != L)
+                if R == ("c", 0) and op == "!=":
+                    st = frozenset(x for x in st if x[0] != L)          # known not NULL from here on
+                elif R == ("c", 0) and op == "==":
+                    # known NULL from here on: kept (as tested-and-NULL), so that a dereference on *this* edge -- a test written the
+                    # wrong way round -- is reported; the usual continuation is the failure path, which does not touch it
+                    st = frozenset((x[0], x[1], "null") if x[0] == L else x for x in st)
+            # the (p == NULL) && (n > 0) idiom (IMALLOC): on the edge where the count is zero the pointer may be NULL and nothing of it is used
+            if kind is False and any(op == ">" and R == ("c", 0) for op, L, R, _, _ in cond_atoms(cond, True)):
+                for pb in blk.preds:
+                    pblk = f.blocks[pb]
+                    if pblk.cond is not None and len(pblk.succs) == 2 and pblk.succs[0] == blk.id:
+                        for op, L, R, _, _ in cond_atoms(pblk.cond, True):
+                            if R == ("c", 0) and op == "==":
+                                st = frozenset(x for x in st if x[0] != L)
             # the (n > 0) && (p == NULL) idiom: when the size test fails the
             # pointer may be NULL but nothing of it is used (zero elements)
             if kind is False and blk.term and blk.term.get("cls") == "BinaryOperator" and blk.term.get("op") == "&&" and blk.succs[0] is not None:
@@ -663,14 +692,14 @@ class NullChk:
                     a = e.arg(k)
                     if a is not None:
                         an = norm(a)
-                        for p, pos in st:
-                            if p == an:
-                                bad.append((f.elem(pos), p, e))
+                        for x in st:
+                            if x[0] == an:
+                                bad.append((f.elem(x[1]), x[0], e))
                 return
             if ptr is not None:
-                for p, pos in st:
-                    if p == ptr:
-                        bad.append((f.elem(pos), p, e))
+                for x in st:
+                    if x[0] == ptr:
+                        bad.append((f.elem(x[1]), x[0], e))
         s.visit(visit)
         return sites, bad
 
